@@ -6,6 +6,7 @@
 -/
 import Cctz.Model.Loader
 import Cctz.Proofs.LoaderInv
+import Cctz.Proofs.LoSeq
 
 namespace Cctz.C20
 open Cctz Cctz.Loader
@@ -51,5 +52,58 @@ inserts: two invocations for one name, both in progress at once -/
 def contract_counterexample_statement : Prop :=
   ∃ (w : World) (names : List Name) (sched : List Nat) (n : Name),
     ((reach w names sched).log.filter fun e => e.2 == n).length = 2 ∧ (reach w names sched).maxActive = 2
+
+/-! ## proofs -/
+
+theorem factory_on_caller_thread : factory_on_caller_thread_statement := by
+  intro w names sched τ n h
+  exact ((inv_reach w names sched).log τ n h).2
+
+theorem factory_never_for_fixed : factory_never_for_fixed_statement := by
+  intro w names sched τ n h
+  have hf := ((inv_reach w names sched).log τ n h).1
+  exact ⟨hf, isFixed_false_isUtc hf⟩
+
+/-- `order.Nodup` is not even needed: a second block of the same thread is a no-op -/
+theorem factory_once_sequential_any_order (w : World) (names : List Name) (order : List Nat)
+    (n : Name) :
+    (((reach w names (sequentialSchedule order)).log.filter fun e => e.2 == n).length ≤ 1) ∧
+    (reach w names (sequentialSchedule order)).maxActive ≤ 1 := by
+  have Q := Quiet_sequential w order (Quiet_init names)
+  exact ⟨Q.once n, Q.maxA⟩
+
+theorem factory_once_sequential : factory_once_sequential_statement := by
+  intro w names order n _
+  exact factory_once_sequential_any_order w names order n
+
+theorem cached_load : cached_load_statement := by
+  intro w s τ t id h hp hu hl
+  have e : step w s τ = setThread s τ { t with pc := .done (id != .utc) id } := by
+    unfold step; rw [h]; simp only [hp, hu, hl, Bool.false_eq_true, if_false]
+  rw [e]
+  refine ⟨rfl, rfl, ?_⟩
+  show ((s.threads.set τ _)[τ]?.map (·.pc)) = _
+  rw [set_get_self _ h]; rfl
+
+theorem failed_stays_failed : failed_stays_failed_statement := by
+  intro w s τ t h hp hu hl
+  obtain ⟨a, _, c⟩ := cached_load w s τ t .utc h hp hu hl
+  exact ⟨a, c⟩
+
+theorem contract_counterexample : contract_counterexample_statement := by
+  refine ⟨{ data := fun _ => none }, [[120], [120]], [0, 1, 0, 1], [120], ?_⟩
+  decide +kernel
+
+/-- the hypotheses of `cached_load` / `failed_stays_failed` are satisfiable: after thread 0 has
+failed to load "x", thread 1 is at `.init` with the name cached as UTC -/
+example : ∃ t, (reach { data := fun _ => none } [[120], [120]] [0, 0, 0, 0]).threads[1]? = some t ∧
+    t.pc = .init ∧ isUtcName t.name = false ∧
+    List.lookup t.name (reach { data := fun _ => none } [[120], [120]] [0, 0, 0, 0]).map = some .utc := by
+  refine ⟨⟨[120], .init⟩, ?_⟩
+  decide +kernel
+
+/-- a non-trivial sequential schedule: the factory is consulted exactly once for "x" -/
+example : ((reach { data := fun _ => none } [[120], [120], [121]] (sequentialSchedule [2, 0, 1])).log.filter
+    fun e => e.2 == [120]).length = 1 := by decide +kernel
 
 end Cctz.C20
